@@ -202,7 +202,7 @@ func (tr *tracker) serve(w http.ResponseWriter, r *http.Request) {
 				case strings.HasPrefix(class, "notes:") && e.Kind == "comment":
 					list = append(list, map[string]interface{}{"id": e.Id, "body": texts(e.Cls, "comment", e.Body), "author": user(1 + e.Id%2), "system": false, "created_at": ts(e.T), "updated_at": ts(e.T + e.Body), "noteable_iid": iid})
 				case strings.HasPrefix(class, "notes:") && e.Kind == "title":
-					list = append(list, map[string]interface{}{"id": e.Id, "body": fmt.Sprintf("changed title from **%s** to **new title %d**", tr.titleAt(is, k), e.Id), "author": user(1), "system": true, "created_at": ts(e.T), "updated_at": ts(e.T)})
+					list = append(list, map[string]interface{}{"id": e.Id, "body": fmt.Sprintf("changed title from **%s** to **new title %d**", tr.titleAt(is, k), e.Id), "author": user(1 + e.Id%2), "system": true, "created_at": ts(e.T), "updated_at": ts(e.T)})
 				case strings.HasPrefix(class, "notes:") && e.Kind == "desc":
 					list = append(list, map[string]interface{}{"id": e.Id, "body": "changed the description", "author": user(2), "system": true, "created_at": ts(e.T), "updated_at": ts(e.T)})
 				case strings.HasPrefix(class, "labels:") && e.Kind == "label":
